@@ -43,6 +43,13 @@ type Request struct {
 	ContentType string            `json:"content_type,omitempty"`
 }
 
+// AnyValue marks a parameter that must be bound but whose value the spec leaves open
+// (present-but-empty with allowEmptyValue).
+type AnyValue struct{}
+
+// MarshalJSON renders the marker.
+func (AnyValue) MarshalJSON() ([]byte, error) { return []byte(`"<any value>"`), nil }
+
 // Result carries the verdict, the values the handler must see (by parameter name; for a name
 // used in two locations the key is "in:name"), and the reason.
 type Result struct {
@@ -220,7 +227,8 @@ func bindSimple(p spec.Parameter, vals []string, present bool) (Verdict, interfa
 	if raw == "" {
 		switch {
 		case p.AllowEmptyValue:
-			return DontCare, nil, "allowEmptyValue: bound value unspecified"
+			// the request is acceptable (allowEmptyValue); which value is bound is left open
+			return Reach, AnyValue{}, ""
 		case p.Required:
 			if p.In == "path" {
 				return DontCare, nil, "empty path segment"
@@ -295,8 +303,11 @@ func bindArrayTop(p spec.Parameter, s simple, vals []string, present bool) (Verd
 	var elems []string
 	if s.CF == "multi" && (p.In == "query" || p.In == "formData") {
 		elems = vals
-		if len(vals) == 1 && vals[0] == "" {
-			elems = nil
+		for _, v := range vals {
+			if v == "" {
+				// "p=" with collectionFormat multi: one empty element or no element? unspecified
+				return DontCare, nil, "empty value for a multi array"
+			}
 		}
 	} else {
 		raw := ""
@@ -311,7 +322,7 @@ func bindArrayTop(p spec.Parameter, s simple, vals []string, present bool) (Verd
 	if len(elems) == 0 {
 		if p.Required {
 			if present && p.AllowEmptyValue {
-				return DontCare, nil, "allowEmptyValue on empty required array"
+				return Reach, AnyValue{}, ""
 			}
 			return Reject, nil, "required array parameter absent or empty"
 		}
